@@ -1,12 +1,11 @@
+use mc::gens::*;
 fn main() {
-    let t = qwt::HQWT256::<u8>::from(vec![1u8, 2, 3, 1, 1, 1, 7, 7]);
-    match serde_json::to_value(&t) {
-        Ok(j) => println!("{}", j.get("lens").map(|x| x.to_string()).unwrap_or("no lens".into())),
-        Err(e) => println!("ERR {e}"),
+    for d in [8, 9, 10, 11, 12, 13, 14, 15, 16] {
+        let f = chain4(d);
+        println!("chain4({d}): syms={} n={}", f.len(), f.iter().map(|&x| x as u64).sum::<u64>());
     }
-    let t = qwt::HWT::<u8>::from(vec![1u8, 2, 3, 1, 1, 1, 7, 7]);
-    match serde_json::to_value(&t) {
-        Ok(j) => println!("{}", j.get("lens").map(|x| x.to_string()).unwrap_or("no lens".into())),
-        Err(e) => println!("ERR {e}"),
+    for d in [12, 17, 20, 24] {
+        let f = chain2(d);
+        println!("chain2({d}): syms={} n={}", f.len(), f.iter().map(|&x| x as u64).sum::<u64>());
     }
 }
